@@ -9,9 +9,11 @@ def materialise(prog, texts, root):
     texts: {logical file name: rendered text} for linked and aux files."""
     os.makedirs(root, exist_ok=True)
     for path, f in prog.aux.items():
+        os.makedirs(os.path.dirname(os.path.join(root, path)), exist_ok=True)
         with open(os.path.join(root, path), "w", encoding="utf-8") as fh:
             fh.write(texts[f.name])
     for path, blob in prog.blobs.items():
+        os.makedirs(os.path.dirname(os.path.join(root, path)), exist_ok=True)
         with open(os.path.join(root, path), "wb") as fh:
             fh.write(blob)
     return [(os.path.join(root, f.name), texts[f.name]) for f in prog.files]
